@@ -595,6 +595,16 @@ func runC10Restore(c c10RestoreCase) Verdict {
 			return *v
 		}
 	}
+	// a restore that is refused (the snapshot names a node the dialogue does not have) changes nothing: the command is still pending
+	if c.Polls%2 == 1 {
+		if err := dr.RestoreAt(&ysgo.Snapshot{CurrentNode: "No Such Node", Variables: snap.Variables, VisitedNodes: snap.VisitedNodes}); err == nil {
+			return failf("RestoreAt with an unknown node succeeded")
+		}
+		if v := expect("wait"); v != nil {
+			f := failf("after a refused RestoreAt the pending command is no longer waited for: %s", v.Fail)
+			return f
+		}
+	}
 	// the host abandons the run: restore the start, other variable values
 	if err := dr.RestoreAt(snap); err != nil {
 		return failf("RestoreAt failed: %v", err)
